@@ -115,7 +115,7 @@ class Gen:
         bn = r.randint(2, 6); bb = P.alloc_keys(bn)
         bplace = bb + (k * r.choice([1, 3]) + j) % bn
         QM = 8
-        c_wb = r.random() < 0.6
+        c_wb = r.random() < 0.4
         cb = P.alloc_keys(N * QM if c_wb else 4)
         cplace = cb + k * QM + q if c_wb else cb + (k + q) % 4
         gb = P.alloc_keys(2)
@@ -137,7 +137,7 @@ class Gen:
             if p_mem: deps.append(Dep('out', MEM(pplace)))
         P.add(TaskClass(Pn, [Param('k', 'range', krng)], pplace, pfl, prio=self.prio('k')))
         # middle
-        alt = r.choice(['mem', 'null'])
+        alt = r.choice(['mem', 'mem', 'null'])
         bfl = [Flow('Y', 'READ', [Dep('in', TT(Pn, 'V', k)),
                                   Dep('out', TT(Cn, 'P1', k, idx // 2), guard=(idx % 2).eq(0), f=TT(Cn, 'Q1', k, idx // 2))])]
         if use_g:
@@ -152,7 +152,7 @@ class Gen:
         qhi = (cnt + 1) // 2 - 1
         cfl = [Flow('P1', 'READ', [Dep('in', TT(Bn, 'Y', k, jlo + (2 * q) * js))]),
                Flow('Q1', 'READ', ([Dep('in', TT(Bn, 'Y', k, jlo + (2 * q + 1) * js), guard=(2 * q + 1).lt(cnt)), Dep('in', MEM(cplace))]
-                                   if (alt == 'mem' and not c_wb and r.random() < 0.6) else
+                                   if (alt == 'mem' and not c_wb and r.random() < 0.8) else
                                    [Dep('in', TT(Bn, 'Y', k, jlo + (2 * q + 1) * js), guard=(2 * q + 1).lt(cnt),
                                         f=(MEM(cplace) if (alt == 'mem' and not c_wb) else NULLT))]))]
         if c_wb:
